@@ -84,15 +84,18 @@ inline void subsets(size_t m, size_t k, std::vector<std::vector<size_t>> &out) {
 }
 
 // ------------------------------------------------------------------ deviations
-enum DevKind { D_NONE = 0, D_BUILTIN, D_WRONG_SHARE, D_FALSE_COMPLAINT, D_SILENT, D_BC_ALTER, D_BAD_REVEAL, D_SHIFT, D_KINDS };
-inline const char *dev_name(int k) { static const char *n[] = {"none", "builtin", "wrong_share", "false_complaint", "silent", "bc_alter", "bad_reveal", "shift"}; return (k >= 0 && k < D_KINDS) ? n[k] : "?"; }
+enum DevKind { D_NONE = 0, D_BUILTIN, D_WRONG_SHARE, D_FALSE_COMPLAINT, D_SILENT, D_BC_ALTER, D_BAD_REVEAL, D_SHIFT, D_UNANSWERED, D_KINDS };
+inline const char *dev_name(int k) { static const char *n[] = {"none", "builtin", "wrong_share", "false_complaint", "silent", "bc_alter", "bad_reveal", "shift", "unanswered"}; return (k >= 0 && k < D_KINDS) ? n[k] : "?"; }
 struct Dev {
 	int kind = D_NONE;
 	int phase = -1;      // phase the deviation acts in (-1: every phase)
 	size_t victim = 0;   // wrong_share: recipient; false_complaint: accused party
 	long k = 0;          // wrong_share: index of the message on the link; false_complaint: before the k-th end marker (1-based);
 	                     // silent: after k broadcasts of the phase; bc_alter: the k-th broadcast of the phase (1-based);
-	                     // bad_reveal: wrong first share to the victim AND the k-th broadcast (the published share) altered
+	                     // bad_reveal: wrong first share to the victim AND the published share altered (k > 0: the k-th broadcast
+	                     // of the phase, k < 0: the |k|-th broadcast after the party's first end marker);
+	                     // unanswered: wrong first share to the victim AND the answer list closed at once (its first entry, the
+	                     // complainer's index, is replaced by the end marker) - the complaint stays unanswered
 	                     // shift (zero sharing): the party deals f(z)+1, f'(z)+1 coherently: first commitment g*h instead of 1,
 	                     // every share +1 - consistent with equation (1), only the check C_i0 = 1 can catch it
 	long k2 = 1;         // false_complaint: how often the complaint value is inserted (2 = duplicated complaint)
@@ -108,13 +111,13 @@ public:
 	World *W; bool is_bc; Dev dev; Z q, gh;
 	CachinKursawePetzoldShoupRBC *rbc = nullptr;
 	int cur_phase = 0;
-	long nb = 0, nend = 0, link_cnt = 0;           // per phase: own broadcasts, own end markers, messages to the victim
+	long nb = 0, nend = 0, link_cnt = 0, after_end1 = 0;   // per phase: own broadcasts, own end markers, messages to the victim, broadcasts after the first end marker
 	long total_bc = 0; long rreq[2] = {0, 0};      // r-request messages sent per phase (payload awaited after the ready quorum)
 	bool nesting = false, injected = false, repl = false, fired = false;
 	Z repl_id, repl_s, repl_val, last_id, last_s; bool have_last = false;
 	DevUnicast(size_t n_, size_t j_, Net *nt, World *w, bool bc, time_t to)
 		: SimUnicast(n_, j_, nt, aio_scheduler_roundrobin, to), W(w), is_bc(bc) {}
-	void enter_phase(int ph) { cur_phase = ph; nb = nend = link_cnt = 0; injected = false; repl = false; }
+	void enter_phase(int ph) { cur_phase = ph; nb = nend = link_cnt = after_end1 = 0; injected = false; repl = false; }
 	bool active() const { return dev.kind != D_NONE && (dev.phase < 0 || dev.phase == cur_phase); }
 	bool Send(mpz_srcptr m, const size_t i, time_t to) override;
 	bool Send(const std::vector<mpz_srcptr> &m, const size_t i, time_t to) override;
@@ -149,8 +152,8 @@ inline bool DevUnicast::Receive(std::vector<mpz_ptr> &m, size_t &i_out, const si
 
 inline bool DevUnicast::Send(mpz_srcptr m, const size_t i, time_t to) {
 	if (!is_bc && dev.kind == D_SHIFT && active()) { Z w(m); mpz_add_ui(w.v, w.v, 1); mpz_mod(w.v, w.v, q.v); fired = true; return SimUnicast::Send(w.v, i, to); }
-	if (!is_bc && (dev.kind == D_WRONG_SHARE || dev.kind == D_BAD_REVEAL) && active() && i == dev.victim) {
-		if (link_cnt++ == (dev.kind == D_BAD_REVEAL ? 0 : dev.k)) {
+	if (!is_bc && (dev.kind == D_WRONG_SHARE || dev.kind == D_BAD_REVEAL || dev.kind == D_UNANSWERED) && active() && i == dev.victim) {
+		if (link_cnt++ == (dev.kind == D_WRONG_SHARE ? dev.k : 0)) {
 			Z w(m); mpz_add_ui(w.v, w.v, 1); mpz_mod(w.v, w.v, q.v); fired = true;
 			return SimUnicast::Send(w.v, i, to);
 		}
@@ -166,7 +169,7 @@ inline bool DevUnicast::Send(const std::vector<mpz_srcptr> &m, const size_t i, t
 		bool first = !(have_last && mpz_cmp(m[0], last_id.v) == 0 && mpz_cmp(m[2], last_s.v) == 0);
 		if (first) { have_last = true; mpz_set(last_id.v, m[0]); mpz_set(last_s.v, m[2]); }
 		bool endm = (mpz_cmp_ui(m[4], (unsigned long)n) == 0);
-		if (first) { nb++; total_bc++; W->bcasts[j]++; if (endm) nend++; }
+		if (first) { nb++; total_bc++; W->bcasts[j]++; if (endm) nend++; else if (nend >= 1) after_end1++; }
 		if (first && active()) {
 			if (dev.kind == D_SILENT && nb > dev.k && !W->mute[j]) { W->mute[j] = true; fired = true; }
 			if (dev.kind == D_FALSE_COMPLAINT && endm && nend == dev.k && !injected && rbc) {
@@ -181,7 +184,13 @@ inline bool DevUnicast::Send(const std::vector<mpz_srcptr> &m, const size_t i, t
 				repl = true; mpz_set(repl_id.v, m[0]); mpz_set(repl_s.v, m[2]); mpz_set_ui(repl_val.v, (unsigned long)dev.victim);
 			}
 			if (dev.kind == D_SHIFT && nb == 1) { repl = true; fired = true; mpz_set(repl_id.v, m[0]); mpz_set(repl_s.v, m[2]); mpz_set(repl_val.v, gh.v); }
-			if ((dev.kind == D_BC_ALTER || dev.kind == D_BAD_REVEAL) && nb == dev.k) {
+			if (dev.kind == D_BAD_REVEAL && dev.k < 0 && !endm && nend == 1 && after_end1 == -dev.k) {
+				repl = true; fired = true; mpz_set(repl_id.v, m[0]); mpz_set(repl_s.v, m[2]); mpz_add_ui(repl_val.v, m[4], 1UL);
+			}
+			if (dev.kind == D_UNANSWERED && !endm && nend == 1 && after_end1 == 1) {
+				repl = true; fired = true; mpz_set(repl_id.v, m[0]); mpz_set(repl_s.v, m[2]); mpz_set_ui(repl_val.v, (unsigned long)n);
+			}
+			if ((dev.kind == D_BC_ALTER || (dev.kind == D_BAD_REVEAL && dev.k > 0)) && nb == dev.k) {
 				repl = true; fired = true; mpz_set(repl_id.v, m[0]); mpz_set(repl_s.v, m[2]); mpz_add_ui(repl_val.v, m[4], 1UL);
 			}
 		}
